@@ -316,7 +316,7 @@ def main(argv=None):
             known_lines.append(f"KNOWN-FINDING: property={prop} {k['what']}")
             continue
         fkey = o["name"].split("/")[1]
-        confirmed = [v for v in violations if v.get("function") == fkey]
+        confirmed = [v for v in violations if v.get("function") == fkey and v["confirmed"]]
         if confirmed:
             violations.append({"what": f"refuted obligation {o['name']}",
                                "replay": confirmed[0]["replay"], "confirmed": True,
